@@ -16,7 +16,7 @@ FILES = {
     "C08": [("C06Generic", ["Scc.Backend.Generic"]), ("C08RV", ["Scc.RV.Backend", "Scc.RV.Machine"]), ("C08RVInt", []), ("C08RVHeap", []), ("C08RVClo", [])],
     "C09": [("C09", ["Scc.Heap.Model", "Scc.Heap.Inv"]), ("C09Refine", []), ("C09X86", []), ("C09X86All", []), ("C09X86Mon", []), ("C09A64All", []), ("C09A64Mon", []), ("C09RVAll", [])],
     "C10": [("C10", ["Scc.Heap.Model"]), ("C10X86", []), ("C10X86All", []), ("C10A64All", []), ("C10RVAll", [])],
-    "C13": [("C13X86", ["Scc.X86.Machine"]), ("C13A64", ["Scc.A64.Machine"]), ("C13Loader", []), ("C13X86Data", []), ("C13X86All", []), ("C13A64All", []), ("C13A64Div", [])],
+    "C13": [("C13X86", ["Scc.X86.Machine"]), ("C13A64", ["Scc.A64.Machine"]), ("C13Loader", []), ("C13X86Data", []), ("C13X86All", []), ("C13A64All", []), ("C13A64Div", []), ("C13X86Div", [])],
     "C14": [("C14Generic", []), ("C14X86", []), ("C14A64", []), ("C14RV", []), ("C14Loader", []), ("C14LoaderA64", []), ("C14LoaderA64Names", []), ("C14LoaderA64Compose", []), ("C14LoaderRV", []), ("C14X86Final", []), ("C14A64Final", []), ("C14RVFinal", [])],
     "C15": [("C15", ["Scc.Fun.Check", "Scc.Fun.Typing"])],
     "C16": [("C16", ["Scc.Fun.Lex", "Scc.Fun.Parse", "Scc.Fun.Print"]), ("C18Cur", ["Scc.Generated.Parser"])],
